@@ -141,9 +141,7 @@ static std::string hex(const uint64_t v, const int bits = 64) {
 	else snprintf(b, sizeof b, "\"0x%016" PRIx64 "\"", v);
 	return b;
 }
-template <typename W> static std::string hexw(const W v) { return hex(v, sizeof(W) * 8); }  // quoted: JSON value
-template <typename W> static std::string hx(const W v) { const std::string q = hexw(v); return q.substr(1, q.size() - 2); }  // bare: message text
-template <typename W> static std::string hx4(const W* s) { return "{" + hx(s[0]) + "," + hx(s[1]) + "," + hx(s[2]) + "," + hx(s[3]) + "}"; }
+template <typename W> static std::string hexw(const W v) { return hex(v, sizeof(W) * 8); }
 template <typename W> static std::string hex4(const W* s) { return "[" + hexw(s[0]) + "," + hexw(s[1]) + "," + hexw(s[2]) + "," + hexw(s[3]) + "]"; }
 
 static inline uint32_t bitsOf(const float f) { uint32_t u; memcpy(&u, &f, sizeof u); return u; }
@@ -181,7 +179,9 @@ static void initSlots() {
 static inline bool note(const int w, const Clause c) { return g_slot[w][c].n.fetch_add(1, std::memory_order_relaxed) < 3; }
 static void emit(const int w, const Clause c, const std::string& msg, const std::string& replayFields) {
 	std::lock_guard<std::mutex> l(g_mx);
-	vt::rep().violation(g_slot[w][c].name, msg, "{\"harness\":\"c20_random\"," + replayFields + "}");
+	std::string m = msg;  // numbers are formatted as quoted JSON strings; the message text shows them bare
+	m.erase(std::remove(m.begin(), m.end(), '"'), m.end());
+	vt::rep().violation(g_slot[w][c].name, m, "{\"harness\":\"c20_random\"," + replayFields + "}");
 }
 static long totalViolations() {
 	long n = 0;
